@@ -80,7 +80,7 @@ def run(ctx):
                 'values; cell-wise comparison by wavelength value. a case = one write+read; non-trivial = n_wav>=2 (SED/cube) or n_models>=2 (convolved)')
     ctx.assume('SED files materialise a single dummy aperture when none is set (by design): values are compared, not the dummy',
                'values compared with rtol 1e-12 (erg/s goes through /d^2 * d^2)', 'float64 arrays (what the objects hold) are stored as float64')
-    ctx.require_events('SED.read:post', 'SEDCube.read:post', 'roundtrip:sed', 'roundtrip:cube', 'roundtrip:convolved', 'cube:get_sed')
+    ctx.require_events('SED.read:post', 'SEDCube.read:post', 'roundtrip:sed', 'roundtrip:cube', 'roundtrip:convolved', 'cube:get_sed', 'roundtrip:sed-object-reused')
     ctx.require_regimes('sed:asc', 'sed:desc', 'cube:asc', 'cube:desc', 'cube:no-unc', 'cube:no-apertures', 'cube:memmap',
                         'convolved:no-apertures', 'unit:erg/s', 'unit:Jy')
     cfg = list(itertools.product(['asc', 'desc'], ['nu', 'wav'], list(FLUX_UNITS), [True, False], [True, False], [True, False]))
@@ -157,6 +157,50 @@ def run(ctx):
                             ctx.violation('sed:other-order-not-reversal', 'requesting the other order is not the reversal of wav, nu, flux, error together', wit0)
                     ctx.case(('sed', ic, ctx.shard), nontrivial=True, sample=dict(wit0, kind='sed') if ic < 40 else None)
                     os.remove(path)
+
+            # ---------------- SED object re-used with another spectral axis of the same length ----------------
+            if with_unc and ic % 2 == 0:
+                s2 = SED()
+                s2.name = 'reused'
+                s2.distance = 1.0 * u.kpc
+                ok2 = True
+                for use in range(3):
+                    ax = wav_asc * (1 + 0.07 * use) if use != 1 else (wav_asc * 1.03)[::-1]      # same length, other values/order
+                    s2.flux = None
+                    s2.error = None
+                    if use % 2 == 0:
+                        s2.nu = None
+                        s2.wav = ax * u.micron
+                    else:
+                        s2.wav = None
+                        s2.nu = (C_UM_HZ / ax) * u.Hz
+                    vv = encode(1, n_a, np.sort(ax), rng)[0]
+                    order_ax = np.argsort(ax)
+                    if with_ap:
+                        s2.apertures = (aps * u.au).to(apu)
+                    fl_in = np.empty_like(vv)
+                    fl_in[:, order_ax] = vv                      # value for the k-th smallest wavelength sits where that wavelength is
+                    s2.flux = fl_in * funit
+                    s2.error = fl_in * 0.03 * funit
+                    path2 = os.path.join(d, 'sedre_%d_%d.fits' % (ic, use))
+                    try:
+                        s2.write(path2)
+                        r = SED.read(path2, unit_flux=funit, order=order)
+                    except Exception as exc:
+                        ctx.violation('sed:roundtrip-raised:%s' % type(exc).__name__, 'SED write/read raised on a re-used object: %r' % (exc,), dict(wit0, kind='sed-reused', use=use))
+                        break
+                    ctx.event('roundtrip:sed-object-reused')
+                    got_w = np.asarray(r.wav.to(u.micron).value, float)
+                    got_nu = np.asarray(r.nu.to(u.Hz).value, float)
+                    idx = lookup(np.sort(ax), None, got_w)
+                    gf = np.asarray(r.flux.to(funit).value, float)
+                    if idx is None or sorted(idx.tolist()) != list(range(n_w)) or np.any(np.abs(got_w * got_nu / C_UM_HZ - 1) > 1e-9) or \
+                            gf.shape != (n_a, n_w) or not O.close(gf, vv[:, idx], 1e-12):
+                        ctx.violation('sed:reused-object-stale-axis', 'an SED object whose spectral axis was re-assigned does not read back what was stored (stale wavelengths/frequencies)',
+                                      dict(wit0, kind='sed-reused', use=use, wav_in=ax, wav_got=got_w, nu_got=got_nu))
+                        break
+                    os.remove(path2)
+                ctx.case(('sedre', ic, ctx.shard), nontrivial=True)
 
             # ---------------- cube ----------------
             c = SEDCube()
